@@ -217,7 +217,9 @@ func timeline(t *testing.T, r *evid.Run, dir string, idx int) {
 		var endOnce sync.Once
 		endSide := func() { endOnce.Do(func() { close(bubbleEnd) }); side.Wait() }
 		defer endSide()
-		write := func() {
+		srng := r.Rand(uint64(idx) + 1<<40) // writes landing inside a held upload draw from their own stream
+		var write func()
+		writeWith := func(rng *rand.Rand) {
 			wmu.Lock()
 			defer wmu.Unlock()
 			// a snapshot after EVERY single save: the loop may read the file between any two of them
@@ -237,6 +239,8 @@ func timeline(t *testing.T, r *evid.Run, dir string, idx int) {
 			writes = append(writes, time.Since(t0))
 			takeSnap()
 		}
+		write = func() { writeWith(rng) }
+		sideWrite := func() { writeWith(srng) }
 		ep := &endpoint{t0: t0, mode: "ok"}
 		client := newS3(ep)
 		ctx, cancel := context.WithCancel(context.Background())
@@ -279,7 +283,7 @@ func timeline(t *testing.T, r *evid.Run, dir string, idx int) {
 									select {
 									case <-cancelThis:
 									default:
-										write()
+										sideWrite()
 									}
 								case <-cancelThis:
 								case <-bubbleEnd:
